@@ -8,6 +8,7 @@ import Q1t.Proofs.SimHypsComplex
 import Q1t.Proofs.SimGFPeek
 import Q1t.Proofs.SimGFStab
 import Q1t.Proofs.SimGFStabExample
+import Q1t.Proofs.SimGFStabQ8
 /-!
 # C01 — shot histograms are exact Born-rule samples of the circuit
 
@@ -35,6 +36,10 @@ witnesses below).  Exactness of `rand`'s Binomial / WeightedIndex samplers and `
 model (trusted base).
 -/
 namespace Q1t.Props.C01
+
+-- two partial `SimAmp Q8` instances are in scope (`Witness.simAmpQ8`: weights 1, ½; `Demo.simAmpQ8`: weights 1, ½, ¼);
+-- the kernel-checked examples of this file use the first one, `stab_histogram_gf_generated` the second one
+attribute [-instance] Q1t.Sim.Demo.simAmpQ8
 open Q1t Q1t.Sim Q1t.Sim.Prog Q1t.Sim.SimGF Q1t.Spec
 
 /-! ## the abstract multinomial law of a range-based sampler -/
@@ -141,10 +146,8 @@ variable {half : α} {ph : List Nat} {conjOf : GateTerm P → Tab.Conj} {St : Ta
 
 /- FULL STATEMENT: `histogram_gf_full` with `B := stabBackend` for all Clifford circuits — false (D4, D5 below).
    Proved: the law on F_stab = gates and classically controlled gates on valid placements, `measure` in any basis,
-   barriers (`SimGF.InFS`); excluded are `reset` (forces outcome 0, D4), `peek`/`peek_all` (D5), `reset_all`.
-   NOT yet covered although not known to be wrong: `measure_all` (done qubit by qubit by this backend; what is
-   missing is the identity "sum over basis states of the `measure_all` clause of `gfShot` = n nested two-outcome
-   sums", plus `Sim.measureAllTo_basis` for X/Y).
+   `measure_all` in any basis (done qubit by qubit by this backend), barriers (`SimGF.InFS`); excluded are `reset`
+   (forces outcome 0, D4), `peek`/`peek_all` (D5), `reset_all`.
    HYPOTHESES (`SimGF.StabHyps`): the tableau contract `tab : TableauOK St n ph conjOf valid` (C02/C03: what the
    tableau operations mean IF they return) and, because the law is about probability mass and not about possible
    runs, what the contract does not state:
@@ -152,8 +155,8 @@ variable {half : α} {ph : List Nat} {conjOf : GateTerm P → Tab.Conj} {St : Ta
      `randHalf` — a `Random` classification means equal weights of the two outcomes (the model draws with ½);
      `iso`, `arity` — valid gates preserve the squared norm and have the right arity;
      `half_add : half + half = 1`, `amp`, `sim`, `pos` (a vector of squared norm 0 is the zero vector).
-   For `St := Reach` (C03) `randHalf` is `TabG.random_weights` and `iso` is unitarity of the embedded matrix; the
-   three progress fields are not proved anywhere yet (C03 has `normalize_ok` for its `Q8` vectors only). -/
+   All of them are discharged by C03 for `St := Reach` and the generated tables over ℚ(ζ₈), relative to the ONE
+   hypothesis `DetShapeHolds` (`stab_histogram_gf_generated` below; `pos` for ℚ(ζ₈) is `SimGF.q8_pos`). -/
 
 /-- **Multinomial law on the stabilizer backend, restricted to F_stab** (all circuits of F_stab, all `n`, `N ≥ 1`,
 every commutative ring, every `x`): the `N`-shot generating function of the model's own `execOps stabBackend …` run
@@ -185,6 +188,26 @@ theorem backends_agree_partial (Hv : Hyps α P nz n valid) (Hs : StabHyps α P n
   backends_agree toR Hv Hs hord x ops hF hN
 
 end stab
+
+attribute [-instance] Q1t.Sim.Witness.simAmpQ8 in
+attribute [local instance] Q1t.Sim.Demo.simAmpQ8 in
+/-- **The law on the stabilizer backend for the GENERATED tables** (`Gen.phaseTable`, `Gen.conjTable`, re-extracted
+from the source on every run) over the exact field ℚ(ζ₈): all `n`, all `N ≥ 1`, all circuits of F_stab whose gates
+are well-formed claiming Clifford terms on valid placements (`TabG.validT`), every ring `R`, every `x` — relative to
+the single hypothesis `DetShapeHolds` (C03: in every reachable tableau a column without X/Y holds exactly one `Z`, in
+a row that is `Z_q` alone).  `hpos` and `½ + ½ = 1` are proved (`SimGF.q8_pos`, `SimGF.q8half_add`).
+The vector backend's bundle `Hyps` is not available over ℚ(ζ₈) (no square roots: `rsqrt`), so the agreement of the
+two backends is `backends_agree_partial` (any amplitude ring carrying both bundles), not an instance here. -/
+theorem stab_histogram_gf_generated {R : Type} [CommRing R] (n N : Nat)
+    (hD : Q1t.Proofs.TabG.DetShapeHolds (α := Q8) (A := Empty) n Q1t.Gen.phaseTable Q1t.Gen.conjTable
+      Q1t.Gen.conjNoArityCheck)
+    (ord : List (Nat × Nat) → List (Nat × Nat)) (toR : Q8 →+* R) (x : Nat → R) (ops : List (COp Empty))
+    (hF : ∀ op ∈ ops, InFS n (Q1t.Proofs.TabG.validT (A := Empty) n Q1t.Gen.conjTable) op) (hN : 0 < N) :
+    expectOrd ord toR (execOps (stabBackend SimGF.q8half Q1t.Gen.phaseTable
+        (Q1t.Proofs.TabG.conjOfT (A := Empty) Q1t.Gen.conjTable Q1t.Gen.conjNoArityCheck))
+        (StabState.new n N) (List.replicate N 0) ops)
+      (shotProdS x) = gfShot n toR x ops (SimGF.ket0 n, 0) ^ N :=
+  stab_histogram_gf_generated' n N hD ord toR x ops hF hN
 
 /-! ## non-vacuity -/
 
@@ -239,6 +262,16 @@ theorem stab_histogram_gf_example :
     expectOrd id (RingHom.id Q8) (execOps (vecBackend (α := Q8) (P := Empty)) (VecState.new 2 2) [0, 0] stabCirc)
       (SimGF.shotProd xT) :=
   ⟨law_on_stabCirc, stabCirc_backends_agree⟩
+
+/-- the same for a circuit with a `measure_all` in the X basis into permuted classical bits -/
+example : ∀ op ∈ stabAllCirc, InFS 2 (placed 2) op := stabAllCirc_inFS
+theorem stab_histogram_gf_example_measure_all :
+    expectOrd id (RingHom.id Q8) (execOps stabQ8 (StabState.new 2 2) [0, 0] stabAllCirc) (shotProdS xT) =
+      gfShot 2 (RingHom.id Q8) xT stabAllCirc (SimGF.ket0 2, 0) ^ 2 ∧
+    expectOrd id (RingHom.id Q8) (execOps stabQ8 (StabState.new 2 2) [0, 0] stabAllCirc) (shotProdS xT) =
+    expectOrd id (RingHom.id Q8) (execOps (vecBackend (α := Q8) (P := Empty)) (VecState.new 2 2) [0, 0] stabAllCirc)
+      (SimGF.shotProd xT) :=
+  ⟨law_on_stabAllCirc, stabAllCirc_backends_agree⟩
 
 /-- its single-shot distribution has four values of probability ¼ … -/
 example : ∀ v ∈ [0, 3, 4, 7],
